@@ -37,8 +37,10 @@ PROPS = {
                    "expired shard was open when the service ran"],
         "assumptions": ["one store node; the catalogue is a single un-replicated meta.Data", "no file-system faults (crash images are copies of the directory at quiescent points)",
                         "the coordinator's up-front rejection of too-old points is re-implemented (second granularity, as fasttime), not executed",
+                        "GOMAXPROCS is pinned to 1 inside the worker (go1.25.0 runtime: racing fixalloc in runtime.getOrSetBubbleSpecial makes WaitGroup.Add spin for ever under parallelism)",
+                        "the index makes new series visible after one second measured with fasttime (a real-clock ticker); the harness issues that flush once the virtual clock is 1.5 s past the last write",
                         "virtual time spans hours (open shards own a 100 ms ticker); longer spans only while the store is down"],
-        "quick": {"runs": 600, "budget_s": 130, "workers": 14},
-        "thorough": {"runs": 7000, "budget_s": 1250, "workers": 16},
+        "quick": {"runs": 450, "budget_s": 130, "workers": 14},
+        "thorough": {"runs": 5500, "budget_s": 1250, "workers": 16},
     },
 }
